@@ -4,6 +4,14 @@
 # exit 0: held on everything analysed (KNOWN-FINDING lines possible)
 # exit 1: "VIOLATION property=<id> replay=<path>" printed
 # exit 2: infrastructure error (tree does not type-check, checker missing)
+# thorough = whole-program load (all dependencies from source) + VTA call graph,
+#            then the checker's own self-test for this property: every seeded
+#            source variant under /verif/mutants is applied to a scratch copy
+#            (outside /repo and /verif), which must still compile, and the quick
+#            check must report the expected rule (benign variants: stay silent).
+#            The self-test result is reported and recorded in the evidence; it
+#            does not change the exit code (a missed variant is a weakness of the
+#            checker, not a violation in /repo).
 set -u
 cd /verif
 . /verif/env.sh
@@ -12,4 +20,21 @@ TIER=${2:-${VERIF_TIER:-quick}}
 if [ ! -x /verif/bin/gscheck ] || [ -n "$(find /verif/gscheck -name '*.go' -newer /verif/bin/gscheck 2>/dev/null | head -1)" ]; then
   (cd /verif/gscheck && go build -o /verif/bin/gscheck ./cmd/gscheck) || { echo "check.sh: cannot build gscheck" >&2; exit 2; }
 fi
-exec /verif/bin/gscheck check -prop "$PROP" -tier "$TIER" -repo "${GS_REPO:-/repo}" -verif /verif
+/verif/bin/gscheck check -prop "$PROP" -tier "$TIER" -repo "${GS_REPO:-/repo}" -verif /verif
+rc=$?
+if [ "$TIER" = thorough ] && [ $rc -ne 2 ] && [ -z "${GS_NO_SELFTEST:-}" ]; then
+  python3 /verif/scripts/run_mutants.py --prop "$PROP" --repo "${GS_REPO:-/repo}" || true
+  python3 - "$PROP" <<'PY' || true
+import json,sys,os
+p=sys.argv[1]
+ev='/verif/evidence/%s.json'%p
+st='/verif/evidence/selftest.%s.json'%p
+if os.path.exists(ev) and os.path.exists(st):
+    e=json.load(open(ev)); s=json.load(open(st))
+    e['coverage']['selftest']={'variants':len(s),'as_expected':sum(1 for x in s if x['status'] in ('detected','detected-other','silent')),
+                               'missed_or_false_alarm':[x for x in s if x['status'] in ('MISSED','FALSE-ALARM')],
+                               'skipped':[x['id'] for x in s if x['status']=='skipped'],'results':s}
+    json.dump(e,open(ev,'w'),indent=1)
+PY
+fi
+exit $rc
